@@ -10,8 +10,8 @@
 (*           (map; a value that was never stored is negative), loadok,     *)
 (*           load (map: cache.load() through a cached handle)]             *)
 (* An operation is a record [t, k, v, k2, v2] (t = "set", "update", "del", *)
-(* "pop", "clear", "dump", "open", "get", "contains", "len", "keys",       *)
-(* "items", "load").                                                       *)
+(* "pop", "clear", "dump", "open", "setdefault", "popkeys", "popitem",     *)
+(* "get", "contains", "len", "keys", "items", "load").                     *)
 (***************************************************************************)
 EXTENDS Naturals, Integers, Sequences, FiniteSets, TLC
 
@@ -27,12 +27,17 @@ Apply(M, o) ==
     [] o.t \in {"update", "dump"} -> [M EXCEPT ![o.k] = o.v, ![o.k2] = o.v2]
     [] o.t \in {"del", "pop"} -> [M EXCEPT ![o.k] = 0]
     [] o.t = "clear"  -> EmptyMap(Len(M))
+    [] o.t = "setdefault" -> IF M[o.k] # 0 THEN M ELSE [M EXCEPT ![o.k] = o.v]
+    [] o.t = "popkeys" -> [M EXCEPT ![o.k] = 0, ![o.k2] = 0]
+    [] o.t = "popitem" -> EmptyMap(Len(M))      \* (some one item goes: every key is "touched", each may stay or go)
     [] OTHER -> M
 Touched(M, o) ==
   CASE o.t = "set"    -> {o.k}
     [] o.t \in {"update", "dump"} -> {o.k, o.k2}
     [] o.t \in {"del", "pop"} -> {o.k}
-    [] o.t = "clear"  -> 1..Len(M)
+    [] o.t \in {"clear", "popitem"} -> 1..Len(M)
+    [] o.t = "setdefault" -> {o.k}
+    [] o.t = "popkeys" -> {o.k, o.k2}
     [] OTHER -> {}
 
 \* one view of the contents (a map) against the state before and the state intended
@@ -60,6 +65,8 @@ FailedCrash(props, M, o, view) ==
              /\ view.itemsok => \A k \in tc : view.items[k] \in {M[k], M2[k]}
              /\ view.loadok => \A k \in tc : view.load[k] \in {M[k], M2[k]}
              /\ view.keysok => \A k \in tc : (k \in ks) \in {M[k] # 0, M2[k] # 0})
+  \cup Chk(props, "C13", "C13.PopitemRemovesAtMostOne", (o.t = "popitem" /\ view.itemsok) =>
+             Cardinality({k \in Dom(M) : view.items[k] = 0}) <= 1)
   \cup Chk(props, "C13", "C13.LenIsANumberOfKeys", view.lenok =>
              \E S \in SUBSET (1..Len(M)) : Cardinality(S) = view.len /\ KeysOK(M, M2, tc, S))
 
